@@ -240,7 +240,14 @@ def build_harness(race=False):
         shutil.copyfile(os.path.join(REPO, "luahelper-lsp", "go.sum"), os.path.join(hdir, "go.sum"))
         exe = os.path.join(hdir, "bin", name)
         cmd = ["go", "build", "-tags", "verif"] + (["-race"] if race else []) + ["-o", exe, "."]
+    # build to a private name and rename atomically: a worker of a concurrently running check may be re-executing the binary
+    tmp = exe + ".tmp.%d" % os.getpid()
+    cmd[cmd.index("-o") + 1] = tmp
     rc, out, _ = sh(cmd, cwd=hdir, env=GOENV, timeout=900)
+    if rc == 0:
+        os.replace(tmp, exe)
+    elif os.path.exists(tmp):
+        os.remove(tmp)
     return rc == 0, out, exe
 
 
@@ -387,28 +394,30 @@ class Runner:
                 self.build_problems.append(("forbidden", "forbidden-token", "; ".join(bad)))
             self.forbidden_elsewhere = [b for b in forbidden_scan() if b not in bad]
             self.closure = mine
-            if vo_fresh("Properties/%s.v" % pid):
-                self.prop_info = check_property_file(pid)
-                if not self.prop_info["compiled"]:
-                    self.build_problems.append(("theorem", self.prop_info["file"], self.prop_info["log"]))
-                else:
-                    extra = [a for a in self.prop_info["axioms"] if a.split(".")[-1] not in {x.split(".")[-1] for x in STDLIB_AXIOMS}]
-                    if extra:
-                        self.build_problems.append(("forbidden", "non-stdlib axiom", ", ".join(extra)))
-            if need_model:
-                ok, out, exe = build_ocaml(pid)
-                if not ok:
-                    self.build_problems.append(("model-build", "ocaml driver", out[-3000:]))
-                self.model_exe = exe
-            ok, out, exe = build_harness(False)
+        # the shared .vo tree is built; everything below writes only files owned by this property (or uses
+        # private temporary names), so other checks need not wait for it
+        if vo_fresh("Properties/%s.v" % pid):
+            self.prop_info = check_property_file(pid)
+            if not self.prop_info["compiled"]:
+                self.build_problems.append(("theorem", self.prop_info["file"], self.prop_info["log"]))
+            else:
+                extra = [a for a in self.prop_info["axioms"] if a.split(".")[-1] not in {x.split(".")[-1] for x in STDLIB_AXIOMS}]
+                if extra:
+                    self.build_problems.append(("forbidden", "non-stdlib axiom", ", ".join(extra)))
+        if need_model:
+            ok, out, exe = build_ocaml(pid)
             if not ok:
-                self.build_problems.append(("corr-build", "harness (go build -tags verif from %s)" % REPO, out[-3000:]))
-            self.impl_exe = exe
-            if need_race:
-                ok, out, exe = build_harness(True)
-                if not ok:
-                    self.build_problems.append(("corr-build", "harness -race", out[-3000:]))
-                self.impl_race_exe = exe
+                self.build_problems.append(("model-build", "ocaml driver", out[-3000:]))
+            self.model_exe = exe
+        ok, out, exe = build_harness(False)
+        if not ok:
+            self.build_problems.append(("corr-build", "harness (go build -tags verif from %s)" % REPO, out[-3000:]))
+        self.impl_exe = exe
+        if need_race:
+            ok, out, exe = build_harness(True)
+            if not ok:
+                self.build_problems.append(("corr-build", "harness -race", out[-3000:]))
+            self.impl_race_exe = exe
         return not self.build_problems
 
     # ---- running one leg
